@@ -398,8 +398,26 @@ OPERATORS = {
 }
 
 
+# operators that edit constructors (inputs, fallibility, registrations): a state input (prebuilt type / configuration entry)
+# has none of those, so the planted twin turns every state input back into a plain singleton constructor first
+DEMOTE_INPUTS = {"dependency_cycle", "singleton_depends_on_request_scoped", "singleton_registered_in_two_blueprints",
+                 "clone_if_necessary_without_clone", "missing_constructor", "constructor_only_in_sibling"}
+
+
+def demote_state_inputs(spec):
+    for c in spec["ctors"].values():
+        if c.pop("input", None):
+            c.pop("key", None)
+            c.pop("include_if_unused", None)
+            if "ann_cloning" in c and c["ann_cloning"] is None and c.get("cloning") == "cin":
+                # (the default of configuration entries is not the default of constructors)
+                c.pop("ann_cloning")
+
+
 def plant(rng, base_spec, op_name):
     spec = copy.deepcopy(base_spec)
+    if op_name in DEMOTE_INPUTS:
+        demote_state_inputs(spec)
     m = Model(spec)
     info = OPERATORS[op_name](rng, spec, m)
     if info is None:
